@@ -66,15 +66,23 @@ Definition map_err {A} (g : ferr -> ferr) (p : parser A) : parser A := fun b =>
 Notation "x <- p ;; q" := (bind p (fun x => q)) (at level 61, p at next level, right associativity).
 Notation "p ;;; q" := (bind p (fun _ => q)) (at level 61, right associativity).
 
-(* a count that was read from a 2-byte field (identity on real bytes; the model's byte strings
-   are lists of arbitrary N) *)
-Definition u16 (n : N) : N := N.min n 65535.
 (* ghost: a `with_capacity(n)` site requesting [n * elem] bytes *)
 Definition tick_alloc (bytes_requested : N) : parser unit := fun b => (Ok (tt, b), mkCost bytes_requested 0).
-(* ghost: `with_capacity(count.min(buf.len() / per))` (the repaired F4 sites) *)
 Definition lenN {A} (b : list A) : N := N.of_nat (length b).
+(* `count.min(buf.len() / per)`, the shape of every wire-count preallocation since commits 3ad5892 and
+   dba8b0a; only as much of the buffer is walked as the answer needs (capped_eq, Proofs: it equals
+   N.min count (lenN b / per)) *)
+Fixpoint len_upto_aux {A} (b : list A) (k acc : N) : N :=
+  if k =? 0 then acc
+  else match b with
+       | [] => acc
+       | _ :: r => len_upto_aux r (N.pred k) (acc + 1)
+       end.
+Definition len_upto {A} (k : N) (b : list A) : N := len_upto_aux b k 0.
+Definition capped (count per : N) (b : bytes) : N := N.min count (len_upto ((count + 1) * per) b / per).
+(* ghost: `Vec::with_capacity(count.min(buf.len() / per))` of [elem]-byte entries *)
 Definition tick_alloc_capped (count per elem : N) : parser unit := fun b =>
-  (Ok (tt, b), mkCost (N.min count (lenN b / per) * elem) 0).
+  (Ok (tt, b), mkCost (capped count per b * elem) 0).
 (* ghost: entering a recursive parser at nesting level [d] *)
 Definition tick_depth (d : N) : parser unit := fun b => (Ok (tt, b), mkCost 0 d).
 
@@ -172,7 +180,7 @@ Definition SZ_STRING : N := 24.
 
 (* read_string_list: Vec::with_capacity(len) then len strings *)
 Definition read_string_list : parser (list bytes) :=
-  len <- read_short ;; tick_alloc (u16 len * SZ_STRING) ;;; repeatS read_string len.
+  len <- read_short ;; tick_alloc_capped len 2 SZ_STRING ;;; repeatS read_string len.
 
 (* HashMap semantics of `v.insert(key, val)` in wire order: later value replaces, the entry keeps
    its place.  Entries are kept in first-insertion order (the canonical comparison sorts). *)
@@ -195,13 +203,17 @@ Definition hm_buckets (n : N) : N :=
 Definition hm_alloc (n entry : N) : N :=
   if n =? 0 then 0 else hm_buckets n * (entry + 1) + 16.
 
+(* ghost: `HashMap::with_capacity(count.min(buf.len() / per))` *)
+Definition tick_hm_capped (count per entry : N) : parser unit := fun b =>
+  (Ok (tt, b), mkCost (hm_alloc (capped count per b) entry) 0).
+
 Definition read_bytes_map : parser (list (bytes * bytes)) :=
-  len <- read_short ;; tick_alloc (hm_alloc (u16 len) SZ_PAYLOAD_ENTRY) ;;;
+  len <- read_short ;; tick_hm_capped len 6 SZ_PAYLOAD_ENTRY ;;;
   l <- repeatS (k <- read_string ;; v <- read_bytes ;; ret (k, v)) len ;;
   ret (hm_of_list l).
 
 Definition read_string_multimap : parser (list (bytes * list bytes)) :=
-  len <- read_short ;; tick_alloc (hm_alloc (u16 len) SZ_MULTIMAP_ENTRY) ;;;
+  len <- read_short ;; tick_hm_capped len 4 SZ_MULTIMAP_ENTRY ;;;
   l <- repeatS (k <- read_string ;; v <- read_string_list ;; ret (k, v)) len ;;
   ret (hm_of_list l).
 
